@@ -66,16 +66,17 @@ Definition indent_all_but_first (s : str) (indent_level : nat) (wipe : bool) : s
   end.
 
 (* multiline(s, quote_with=two empty strings) as used by to_docstring *)
-(* after fix: the continuation (blank, backslash, newline) appended after the last line is cut off by length,
-   [: -len(...)], instead of rstrip over the three characters, which used to eat characters of the text itself *)
+(* after the /repo fixes: the continuation (blank, backslash, newline) appended after the last line is cut off by length,
+   [: -len(...)], and then trailing blanks and newlines are stripped as before; the old rstrip over the three characters
+   also ate a backslash that ends the text itself *)
 Definition drop_last3 (j : str) : str := firstn (List.length j - 3) j.
 
 Definition multiline_noquote (s : str) : str :=
-  drop_last3 (join tab (map (fun l => l ++ L " \" ++ [nl]) (splitlines s))).
+  rstrip_chars (L " " ++ [nl]) (drop_last3 (join tab (map (fun l => l ++ L " \" ++ [nl]) (splitlines s)))).
 
 (* multiline(s) with the default quote marks *)
 Definition multiline_sq (s : str) : str :=
-  drop_last3 (join tab (map (fun l => sq :: l ++ sq :: L " \" ++ [nl]) (splitlines s))).
+  rstrip_chars (L " " ++ [nl]) (drop_last3 (join tab (map (fun l => sq :: l ++ sq :: L " \" ++ [nl]) (splitlines s)))).
 
 Definition strip_split (sep s : str) : list str := map strip (split sep s).
 
